@@ -426,6 +426,12 @@ def unroll(rep, meta, sfx):
     # unroll must visit every node: it must be applied through the bottom-up traversal
     if not any(callee(n) == EXPR + "::map_bottom_up" or callee(n) == EXPR + "::map_top_down" for n in walk(un["body"])):
         r.violation("unroll-not-traversing", where(un["body"]), "unroll is not applied through a generic traversal")
+    elif not any(callee(n) == EXPR + "::map_bottom_up" for n in walk(un["body"])):
+        r.violation("unroll-not-postorder", where(un["body"]),
+                    "the pass that eliminates variants runs top-down: a top-down map never re-examines the root of what "
+                    "the closure returns, and `e{1}` returns its operand unchanged, so `(\"x\"{2}){1}` keeps a RepExact "
+                    "that the conversion declares unreachable (panic on a valid grammar)")
+    r.instance("unroll:postorder", where(un["body"]))
 
 
 PASSES = ["rotator", "skipper", "unroller", "concatenator", "factorizer", "lister"]
